@@ -77,4 +77,49 @@ PROPS = {
                 "(op, output shape)",
         "assumptions": ["total file size below 2^32 bytes (uint32 positions)"],
     },
+    "C19": {
+        "run_timeout": 1800,
+        "manifest": {
+            "text": "Lean 4 theorems for the sampled-metric half of the property: window_spec (for every timed history of Add "
+                    "calls and cleaner ticks with a monotone clock the window holds exactly the samples not expired at the last "
+                    "tick, in order), window_only_added (no value that was never added, no spurious zero), window_keeps_live, "
+                    "export_spec (min/max attained and bounding, avg = truncated sum/len between them), export_empty. "
+                    "Correspondence: real sliding windows (verif-tag constructor with chosen lifetime) driven on real time in "
+                    "parallel against the model, and Stats.Get against exportOf. The counter / query-log half of the property "
+                    "is checked with the query-path properties (see DESIGN.md) and is not claimed by this check yet.",
+            "note": "Trusted: Lean kernel + standard axioms; Go time/ticker (window correspondence runs on real time with "
+                    "events kept 150 ms away from tick and expiry instants; a case whose schedule slipped > 50 ms is skipped and "
+                    "counted); sort.Slice modelled as insertion sort (min/max/sum are permutation invariant, proved).",
+        },
+        "trusted": COMMON_TRUSTED + [
+            "Go runtime timers: the cleaner ticks once per second from window creation; real-time correspondence with margins",
+        ],
+        "rule": "80 (thorough 1800) windows with random lifetimes 1.15-2.55 s, 1-7 timed adds and 1-4 timed queries each, run "
+                "concurrently on real time; 400 (thorough 5000) Stats.Get cases over 1-9 samples incl. negative and large values; "
+                "distinct = distinct (op, output shape)",
+        "assumptions": ["monotone clock"],
+    },
+    "C06": {
+        "manifest": {
+            "text": "Lean 4 invariant proof over a state-machine model of db.DB reference counting, DB.Reload (goroutine, timeout "
+                    "branch, destroyNewDbi handshake, validation) and FBDNSDB.Reload/AcquireReader/Close: for every operation "
+                    "sequence of any length with any number of readers and timed-out reload goroutines, no backend is closed "
+                    "twice or touched after close, the served backend and every reader's backend stay open, and every backend "
+                    "that is no longer served, held or in use has been closed (life_all, quiescent_closed_once). Tied to the code "
+                    "by replaying op sequences (exhaustive to depth 3/4 over 16 ops, random to length 60) on the real "
+                    "dnsserver/db code over an instrumented fake DBI (verif-tag constructor) and comparing per-backend "
+                    "close/bad-use counts, plus liveness probes.",
+            "note": "Trusted: Lean kernel + standard axioms; Go scheduler for the reload goroutine/timeout race (both orders give "
+                    "the same observable state; the harness waits for quiescence); the fake DBI mirrors which calls of the real "
+                    "drivers touch the receiver (a catch-up works on the receiver for its whole duration, a switch does not).",
+        },
+        "trusted": COMMON_TRUSTED + [
+            "instrumented fake db.DBI in the harness stands for CDB/RocksDB handles; real drivers' Reload touch pattern transcribed",
+        ],
+        "rule": "all sequences over 16 ops (acquire, use i, release i, reload new/same ok, open error, validation failure "
+                "new/same, timeout with finished/pending new/same/failing goroutine, late completion, shutdown) to depth 3 "
+                "(thorough 4), plus 3000 (thorough 40000) random sequences of length 4-60; distinct = distinct (op, final "
+                "state summary)",
+        "assumptions": ["no new query is started after shutdown"],
+    },
 }
